@@ -152,3 +152,28 @@ def segment_nondecr(ir, result, t):
     base = count_types_before(ir, t)
     n = len(ir.subdomain_ids[ITG_TYPES[t]])
     return nondecr(result.ids[base : base + n])
+
+
+# ---------------------------------------------------------------- C20: option precedence
+import ffcx.options as _O
+
+DEFAULT_KEYS = list(_O.FFCX_DEFAULT_OPTIONS)
+EXTRA = "some_unknown_key"
+
+
+def present(key, priority, pwd, user):
+    return (priority is not None and key in priority) or key in pwd or key in user
+
+
+def expected_option(key, priority, pwd, user):
+    if priority is not None and key in priority:
+        return priority[key]
+    if key in pwd:
+        return pwd[key]
+    if key in user:
+        return user[key]
+    return _O.FFCX_DEFAULT_OPTIONS[key][1]
+
+
+def merged(result, key):
+    return result[key]
